@@ -72,6 +72,7 @@ type Unit struct {
 	Have     []Clause          // intermediate facts over the locals at a return, proved in order and then assumed
 	Wants    map[string]bool   // optional postcondition groups of callees this unit asks for
 	Witness  map[string]string // existsT variable -> spec expression (over locals at return) that instantiates it in proofs
+	Unpublished map[string]bool // T-typed parameters / receiver that may be half-built (allocated by the caller, not yet returned)
 	UsesDef  []string // lemmas / axioms made available only to the definedness obligations of this unit
 	Trusted  []Clause // postconditions assumed at call sites but not proved from the body (paper lemmas); always reported
 }
@@ -100,6 +101,9 @@ type Axiom struct {
 	C     Clause
 	Short string
 	Lemma bool // proved once per run from the domain axioms (pseudo-unit lemma.<name>), then available via "uses"
+	// Induct: the statement is forall lo, hi: lo <= hi => Body(lo, hi) for the named two-parameter macro Body; it is
+	// closed by induction on hi - lo: qv proves Body(hi, hi) and Body(lo+1, hi) => Body(lo, hi) for lo < hi.
+	Induct string
 }
 
 type Program struct {
@@ -199,7 +203,7 @@ func (p *Program) collectLits(u *Unit, body ast.Node) {
 	})
 }
 
-var clauseRe = regexp.MustCompile(`^(requires|ensures|modifies|loop|takes|public|assumed|bounded|returns|ghost|props|domain|defined|source|target|implements|uses|trusted|witness|wants|have|usesdef)\b(\[[A-Z0-9,]+\])?\s*(.*)$`)
+var clauseRe = regexp.MustCompile(`^(requires|ensures|modifies|loop|takes|public|assumed|bounded|returns|ghost|props|domain|defined|source|target|implements|uses|trusted|witness|wants|have|usesdef|unpublished)\b(\[[A-Z0-9,]+\])?\s*(.*)$`)
 
 func (p *Program) specErr(where, msg string) {
 	p.SpecErr = append(p.SpecErr, where+": "+msg)
@@ -237,7 +241,7 @@ func (p *Program) parseSpecs(pkg *packages.Package) {
 			first := strings.Fields(t)[0]
 			first = strings.SplitN(first, "[", 2)[0]
 			switch first {
-			case "func", "closure", "abstract", "requires", "ensures", "modifies", "loop", "takes", "public", "assumed", "bounded", "define", "axiom", "returns", "ghost", "props", "domain", "defined", "source", "target", "implements", "uses", "lemma", "predicate", "trusted", "witness", "wants", "have", "usesdef":
+			case "func", "closure", "abstract", "requires", "ensures", "modifies", "loop", "takes", "public", "assumed", "bounded", "define", "axiom", "returns", "ghost", "props", "domain", "defined", "source", "target", "implements", "uses", "lemma", "predicate", "trusted", "witness", "wants", "have", "usesdef", "induct", "unpublished":
 				joined = append(joined, line{t, l.where})
 			default:
 				if len(joined) == 0 {
@@ -290,6 +294,9 @@ func (p *Program) parseSpecs(pkg *packages.Package) {
 					if srt == "Idx" {
 						srt = idxSort
 					}
+					if srt == "DArr" {
+						srt = "(Array Int Data)"
+					}
 					m.Sorts = append(m.Sorts, srt)
 				}
 				p.Macros[m.Name] = m
@@ -300,6 +307,21 @@ func (p *Program) parseSpecs(pkg *packages.Package) {
 					continue
 				}
 				p.Macros[m.Name] = m
+			case strings.HasPrefix(t, "induct "):
+				rest := strings.TrimSpace(t[7:])
+				i := strings.Index(rest, ":")
+				if i < 0 {
+					p.specErr(l.where, "induct needs 'name: bodyMacro'")
+					continue
+				}
+				body := strings.TrimSpace(rest[i+1:])
+				src := fmt.Sprintf("forallI(lo, forallI(hi, imp(lo <= hi, %s(lo, hi))))", body)
+				e, err := parser.ParseExpr(src)
+				if err != nil {
+					p.specErr(l.where, "induct: "+err.Error())
+					continue
+				}
+				p.Axioms = append(p.Axioms, Axiom{Name: strings.TrimSpace(rest[:i]), C: Clause{Expr: e, Text: src, Where: l.where}, Short: short, Lemma: true, Induct: body})
 			case strings.HasPrefix(t, "axiom "), strings.HasPrefix(t, "lemma "):
 				rest := strings.TrimSpace(t[6:])
 				i := strings.Index(rest, ":")
@@ -396,6 +418,13 @@ func (p *Program) parseSpecs(pkg *packages.Package) {
 							cur.Witness = map[string]string{}
 						}
 						cur.Witness[strings.TrimSpace(fs[0])] = strings.TrimSpace(fs[1])
+					}
+				case "unpublished":
+					if cur.Unpublished == nil {
+						cur.Unpublished = map[string]bool{}
+					}
+					for _, x := range strings.Split(rest, ",") {
+						cur.Unpublished[strings.TrimSpace(x)] = true
 					}
 				case "usesdef":
 					for _, x := range strings.Split(rest, ",") {
